@@ -15,6 +15,9 @@ for tr in ("bst", "rb", "avl"):
     UNITS.append(T("%s_insert" % tr, "h_insert", tr, canaries=3, functions=fi))
     UNITS.append(T("%s_remove" % tr, "h_remove", tr, canaries=2, functions=fr, replay={"driver": "C14_replay.c", "mode": "remove", "args": []}))
 UNITS.append(T("lookup", "h_lookup", "bst", canaries=2, functions=["p_tree_lookup"]))
-UNITS.append(T("foreach", "h_foreach", "bst", canaries=2, functions=["p_tree_foreach"], cbmc_flags_quick=["--unwind", "17"], cbmc_flags_thorough=["--unwind", "34"]))
-UNITS.append(T("clear", "h_clear", "bst", functions=["p_tree_clear", "p_tree_free", "p_tree_get_nnodes"], cbmc_flags_quick=["--unwind", "17"], cbmc_flags_thorough=["--unwind", "34"]))
-UNITS.append(T("rb_clear", "h_clear", "rb", functions=[], cbmc_flags_quick=["--unwind", "17"], cbmc_flags_thorough=["--unwind", "34"]))
+# foreach / clear at height 4 did not finish within 100 minutes: the thorough tier keeps the quick bound for these two
+WALK3 = dict(defines_thorough=["H=3"], cbmc_flags_quick=["--unwind", "17"], cbmc_flags_thorough=["--unwind", "17"],
+             bound={"quick": "any well-formed bst tree of height <= 3 (<= 7 nodes), one operation", "thorough": "any well-formed bst tree of height <= 3 (<= 7 nodes), one operation (height 4 did not finish in 100 minutes)"})
+UNITS.append(T("foreach", "h_foreach", "bst", canaries=2, functions=["p_tree_foreach"], **WALK3))
+UNITS.append(T("clear", "h_clear", "bst", canaries=2, functions=["p_tree_clear", "p_tree_free", "p_tree_get_nnodes"], **WALK3))
+UNITS.append(T("rb_clear", "h_clear", "rb", canaries=2, functions=[], cbmc_flags_quick=["--unwind", "17"], cbmc_flags_thorough=["--unwind", "34"]))
